@@ -629,6 +629,9 @@ func gnativeRun(env *runner.Env) (res *runner.Result) {
 			if r := recover(); r != nil {
 				msg := fmt.Sprint(r)
 				if strings.Contains(msg, "deadlock") && strings.Contains(msg, "bubble") {
+					if res.Steps == 0 {
+						panic("the bubble ended before the simulation ran: " + msg)
+					}
 					return // goroutines left blocked at the end of the bubble
 				}
 				panic(r)
